@@ -68,7 +68,8 @@ theorem render_segsExpr : ∀ e : Expr, renderSegs (segsExpr e) = renderExpr e
   | .mulOp x y => by simp [segsExpr, renderExpr, render_segsExpr x, render_segsExpr y]
   | .divOp x y => by simp [segsExpr, renderExpr, render_segsExpr x, render_segsExpr y]
   | .mapFilterKeys keep keys m => by
-    simp [segsExpr, renderExpr, renderSegs_joinS, render_segsExpr m, Function.comp_def]
+    by_cases h : (keep && keys.isEmpty) = true <;>
+      simp [segsExpr, renderExpr, renderSegs_joinS, render_segsExpr m, Function.comp_def, h]
   | .mapAt m key => by simp [segsExpr, renderExpr, render_segsExpr m]
   | .tupleAt name i => by simp [segsExpr, renderExpr]
   | .topkSlice isTop hasLabels k => by simp [segsExpr, renderExpr, topkText]
@@ -79,6 +80,7 @@ theorem render_segsExpr : ∀ e : Expr, renderSegs (segsExpr e) = renderExpr e
   | .mapDrop m ps => by
     simp [segsExpr, renderExpr, renderSegs_joinS, render_segsExpr m, List.map_map, Function.comp_def, render_dropClauseSegs]
   | .labelsFp => by simp [segsExpr, renderExpr]
+  | .quantileAgg units scale col => by simp [segsExpr, renderExpr]
 theorem render_segsSels : ∀ ss : List Sel, (segsSels ss).map renderSegs = renderSels ss
   | [] => by simp [segsSels, renderSels]
   | s :: ss => by simp [segsSels, renderSels, render_segsSel s, render_segsSels ss]
